@@ -311,6 +311,7 @@ func runC07(c *Ctx, r *Report) {
 	r.Rule("C05.R8", "(shared) ReleaseRegister only receives a register that was acquired")
 	{
 		sub := NewReport("C05", r.Tier, c)
+		sub.Sub = true
 		runC05(c, sub)
 		for _, o := range sub.Obls {
 			if o.Rule != "C05.R1" && o.Rule != "C05.R2" && o.Rule != "C05.R8" {
@@ -330,6 +331,7 @@ func runC07(c *Ctx, r *Report) {
 	c.checkModifyAssertions(r, "C05.R4")
 	// shared: Hashable
 	sub := NewReport("C04", r.Tier, c)
+	sub.Sub = true
 	c.checkHashable(sub)
 	for _, o := range sub.Obls {
 		if o.status == FAIL {
